@@ -69,7 +69,20 @@
     stored values are all values in order up to the capacity, max / min expires range over all of them;
     `block_contacts`: the same for the Contact / PAI lines of a header block parsed by ParseHeaders, whatever headers
     stand between them; `pai_lines_hno`, `pai_lines_n`.
-  NOT proved here (oracle / correspondence only): commas inside parameter names / unquoted values for From / To in
+  * The converse of the splitting clause, for ALL inputs (`Sipsp.Proofs.NaSplit`; "top level" = the automaton's own
+    notion, a 9-mode byte scanner `NsTop`): `value_ends_at_first_top_comma` (verdict "more values" ⇒ the byte before the
+    returned offset is a comma at top level and NO top-level comma occurs before it), `value_ok_no_top_comma` (OK ⇒
+    the offset follows a line end not followed by SP / HT, and for multi-valued kinds the value has no top-level
+    comma), `single_valued_never_more_values` (From / To never answer "more values", any object, any state);
+    `contact_list_segments`, `pai_list_segments`, `contact_count_is_commas`, `pai_count_is_commas`,
+    `contact_list_converse`, `pai_list_converse`: after OK the header value is cut at exactly its top-level commas,
+    N = 1 + their number for every capacity, the stored values are the value parser's reports for the first pieces in
+    order, min / max expires range over all pieces; `value_span_end`, `value_span_start`.
+    Where the automaton's "top level" differs from "outside quotes and outside <…>" (all inputs pinned as tests):
+    a `"` inside `<…>`, after `>` or inside a parameter NAME is an ordinary byte (`<sip:"a>,b` splits at the comma),
+    a `<` after `>` is ordinary; a `"` inside a bare URI or name token does open a quoted string.
+  NOT proved here (oracle / correspondence only): the splitting converse for resumed calls (one-call statements; C02
+  transfers them); commas inside parameter names / unquoted values for From / To in
   general (ordinary bytes, except that a leading comma is dropped); the partial object left behind by the
   parameter-level rejections; value lists whose values use the trailing-";" / junk-after-">" shapes; stored values of
   several PAI lines (only the counters).  Model tied to parse_from.go / parse_contact.go / parse_pai.go by the
@@ -78,6 +91,7 @@
 import Sipsp.Proofs.NameAddrSpec
 import Sipsp.Proofs.NameAddrSpec2
 import Sipsp.Proofs.HdrTyped
+import Sipsp.Proofs.NaSplit
 
 namespace Sipsp.C09
 open Sipsp
@@ -478,5 +492,59 @@ theorem block_contacts : type_of% @Sipsp.HtBlock.contacts := @Sipsp.HtBlock.cont
 theorem pai_lines_hno : type_of% @Sipsp.ht_paLines_hNo := @Sipsp.ht_paLines_hNo
 
 theorem pai_lines_n : type_of% @Sipsp.ht_paLines_n := @Sipsp.ht_paLines_n
+
+/-! ### split only at top-level commas: the converse, for ALL inputs (proved in `Sipsp.Proofs.NaSplit`) -/
+
+/-- **(1a)** "more values": the byte before the returned offset is a comma, it is at top level, and it is the FIRST
+    top-level comma of the text that starts at `o` -/
+theorem value_ends_at_first_top_comma : type_of% @Sipsp.ns_value_more := @Sipsp.ns_value_more
+
+/-- **(1b)** OK: the returned offset is the one after the line end of the header, and (header kinds with several
+    values) there is no top-level comma before it -/
+theorem value_ok_no_top_comma : type_of% @Sipsp.ns_value_ok := @Sipsp.ns_value_ok
+
+/-- **the converse of the splitting rule, value level, any object that is at the start of a value** -/
+theorem value_split_any_init_object : type_of% @Sipsp.ns_parse := @Sipsp.ns_parse
+
+/-- **(3)** a header kind with a single value (From, To, …): the verdict is never "more values", whatever the input
+    and whatever object is passed in -/
+theorem single_valued_never_more_values : type_of% @Sipsp.ns_single_never_more := @Sipsp.ns_single_never_more
+
+/-- **(2) ParseAllContactValues, converse**: whenever it answers OK — any buffer, any offset, any capacity — the text
+    it consumed is cut at its top-level commas into pieces (`NsSegs`), and the object is the old one after accepting,
+    in order, exactly the values the value parser reports for those pieces -/
+theorem contact_list_segments : type_of% @Sipsp.parseAllContactValues_segs := @Sipsp.parseAllContactValues_segs
+
+/-- **(2) ParseAllPAIValues, converse** (no accepted value is `*`) -/
+theorem pai_list_segments : type_of% @Sipsp.parseAllPAIValues_segs := @Sipsp.parseAllPAIValues_segs
+
+/-- **(2) the value count**: after ParseAllContactValues answered OK, `N` has grown by 1 + the number of top-level
+    commas of the consumed text — for every capacity of the caller's array -/
+theorem contact_count_is_commas : type_of% @Sipsp.parseAllContactValues_count := @Sipsp.parseAllContactValues_count
+
+theorem pai_count_is_commas : type_of% @Sipsp.parseAllPAIValues_count := @Sipsp.parseAllPAIValues_count
+
+/-- **(2) ParseAllContactValues on a new object of ANY capacity `cap`, converse direction.**  If the call answers OK
+    with offset `o'`, then there is a list `L` of pieces (start offset, reported value) such that
+    * `NsSegs`: the pieces tile the text from `o`: each but the last is closed by the FIRST top-level comma after its
+      start (the next piece starts right after it), the last has no top-level comma and is closed by the line end of the
+      header, `o'` being the offset after it; the value of a piece is what the value parser reports at its start;
+    * `NsVSpans`: each reported `V` lies inside its piece, before the closing comma; it starts at the first byte of
+      the piece that is not white space / a line-end byte;
+    * `N` = number of pieces = 1 + number of top-level commas of the text `[o, o')` — also beyond the capacity;
+    * the stored values are the values of the first `cap` pieces, in order;
+    * max / min expires summarise ALL pieces. -/
+theorem contact_list_converse : type_of% @Sipsp.parseAllContactValues_new_converse := @Sipsp.parseAllContactValues_new_converse
+
+/-- **(2) ParseAllPAIValues on a new object, converse direction** (two slots; `N` counts all pieces) -/
+theorem pai_list_converse : type_of% @Sipsp.parseAllPAIValues_new_converse := @Sipsp.parseAllPAIValues_new_converse
+
+/-- where the reported value ends: on "more values" at or before the comma; on OK at or before a run of white space /
+    line-end bytes that reaches the returned offset -/
+theorem value_span_end : type_of% @Sipsp.ns_value_vend := @Sipsp.ns_value_vend
+
+/-- **the reported value starts at the first byte of the piece that is not white space / a line-end byte** (header
+    kinds with several values; buffers within the 65,535-byte limit) -/
+theorem value_span_start : type_of% @Sipsp.ns_value_lead := @Sipsp.ns_value_lead
 
 end Sipsp.C09
